@@ -19,12 +19,26 @@ def main():
     from pyvc import native
     native.setup(repo, block_rust=not rp.get("with_rust", False))
     out = {"confirmed": False, "why": "", "observed": None}
-    if rp.get("bounded"):
-        # failure found by a bounded stand-in: re-run that stand-in's single case
-        import importlib
-        mod = importlib.import_module("bounded." + rp["bounded_module"])
-        res = mod.replay(rp["failure"], repo)
-        print(json.dumps(res))
+    if rp.get("bounded") and not rp.get("func"):
+        # failure found by a bounded stand-in without a per-function replay: re-run that stand-in
+        import subprocess
+        from bounded.registry import BOUNDED
+        item = next((it for it in BOUNDED.get(rp["property"], []) if it["name"] == rp["bounded"]), None)
+        if item is None:
+            out["why"] = "unknown bounded stand-in"
+            print(json.dumps(out))
+            return
+        env = dict(os.environ, VERIF_REPO=repo, PYTHONPATH=HERE)
+        pr = subprocess.run([sys.executable, os.path.join(HERE, "bounded", item["script"])] + item.get("args", []) + ["--tier", "quick"],
+                            capture_output=True, text=True, env=env)
+        try:
+            res = json.loads(pr.stdout.strip().splitlines()[-1])
+            out["confirmed"] = bool(res.get("failures"))
+            out["why"] = f"bounded stand-in re-run: {len(res.get('failures', []))} failing case(s)"
+            out["observed"] = res.get("failures", [])[:2]
+        except Exception as e:
+            out["why"] = f"bounded stand-in crashed: {e!r} {pr.stderr[-300:]}"
+        print(json.dumps(out))
         return
     try:
         C = native.load_contracts()
